@@ -28,6 +28,7 @@ def declare(rep):
     rep.rule("C19.header-row", "header and rows of each statistics writer have the same fixed columns and range over the same mapper list; one newline each", floor=2)
     rep.rule("C19.columns", "the six named columns are produced by the getter of that quantity, which returns the field of that name", floor=11)
     rep.rule("C19.stats-schedule", "statistics every 50th iteration and once after the loop; iteration_ incremented once per iteration", floor=3)
+    rep.rule("C19.face-file-counts", "in the face-data file each declared count (CELLS, CELL_DATA, POINT_DATA, array lengths) is accumulated from the same kind of element (nodes / faces) that the emitting loop ranges over", floor=3)
     rep.rule("C19.file-number", "file number = floor(t/S)+1, written only on change, both paths from the same stored number, current population", floor=3)
 
 
@@ -145,8 +146,43 @@ def run(rep, prog, tier):
     if len(set(shapes.values())) != 1:
         rep.violation("C19.header-row", prog, None, None, "the two statistics writers disagree", "csv and string writers emit different tables: %s" % shapes)
     columns(rep, prog)
+    face_file_counts(rep, prog)
     schedule(rep, prog)
     file_number(rep, prog)
+
+
+KIND = {"cell::get_nb_of_nodes": "node", "cell::get_node_lst": "node", "cell::get_face_lst": "face", "cell::get_nb_of_faces": "face"}
+
+
+def face_file_counts(rep, prog):
+    for qn, want in (("mesh_writer::add_node_data_arrays_to_mesh", "node"), ("mesh_writer::add_face_data_arrays_to_mesh", "face"), ("mesh_writer::write_face_data", "face")):
+        fns = [f for f in prog.fns(qn) if isinstance(f.get("body"), dict) and "std::shared_ptr<cell>" in f["key"]]
+        if len(fns) != 1:
+            raise AnalysisBroken("%s(.., vector<cell_ptr>) not found (%d candidates)" % (qn, len(fns)))
+        fn = fns[0]
+        counts = {}
+        for d in walk(fn["body"]):
+            if d.get("k") == "Var" and isinstance(d.get("init"), dict) and any(x.get("k") == "CallExpr" and x.get("callee") == "std::accumulate" for x in walk(d["init"])):
+                kinds = {KIND[x["callee"]] for x in walk(d["init"]) if x.get("k") == "CXXMemberCallExpr" and x.get("callee") in KIND}
+                counts[d["did"]] = (d["name"], kinds)
+        declared = set()
+        for n in walk(fn["body"]):
+            if n.get("k") == "CallExpr" and n.get("callee") == "std::to_string":
+                a = strip(call_args(n)[0])
+                if a.get("k") == "DeclRefExpr" and a["ref"]["did"] in counts:
+                    declared.add(a["ref"]["did"])
+        loops = [l for l in walk(fn["body"]) if l.get("k") == "CXXForRangeStmt" and strip(l["range"]).get("callee") in KIND]
+        loop_kinds = {KIND[strip(l["range"])["callee"]] for l in loops}
+        # counts that head a section whose values are emitted by those loops: the nodes / faces count of this function
+        main = [counts[d] for d in declared if want in counts[d][1] or (counts[d][0] in ("nb_nodes", "nb_faces") and "integer" not in counts[d][0])]
+        bad = [(nm, k) for d in declared for nm, k in [counts[d]] if nm in ("nb_%ss" % want,) and k != {want}]
+        if not declared or not loops:
+            raise AnalysisBroken("%s: declared counts / emitting loops not found" % qn)
+        if not bad and loop_kinds == {want} and any(nm == "nb_%ss" % want for nm, k in (counts[d] for d in declared)):
+            rep.ok("C19.face-file-counts", prog, fn, loops[0], "%s: declared count nb_%ss is accumulated over %ss and the values are emitted by a loop over %ss" % (qn.split("::")[1], want, want, want))
+        else:
+            rep.violation("C19.face-file-counts", prog, fn, loops[0], "%s declares a count of %s but emits %ss" % (qn.split("::")[1], bad[0][1] if bad else "?", "/".join(sorted(loop_kinds))),
+                          "%s: the declared tuple count is accumulated from %s while the values are written by a loop over %s: the file announces a number of values different from what follows and cannot be parsed" % (qn, bad or [counts[d] for d in declared], sorted(loop_kinds)))
 
 
 def columns(rep, prog):
